@@ -100,6 +100,7 @@ COLUMN_KINDS = {
     'object_groups': ('slist', 'opaque'),
     'app_specific_info': ('slist', 'opaque'),
     'name_index': 'nat',
+    '_object_group': 'str', '_application_namespace': 'str', '_application_data': 'str',
     'cryptographic_algorithm': ('lazyopt', ('enum', 'kmip.core.enums.CryptographicAlgorithm')),
     'cryptographic_length': ('lazyopt', 'int32nat'),
     'key_format_type': ('enum', 'kmip.core.enums.KeyFormatType'),
@@ -447,6 +448,7 @@ def make_engine(I, label="self", version=None, identity=True):
     e.fields['_data_session'] = make_session(I)
     e.fields['_object_map'] = object_map()
     e.fields['_protocol_versions'] = protocol_versions()
+    e.fields['default_protocol_version'] = e.fields['_protocol_versions'][3]
     e.fields['_lock'] = Obj(Lock, {}, 'lock')
     e.fields['_data_store_session_factory'] = Obj(SessionFactory, {}, 'session-factory')
     e.meta['track_reads'] = set(PER_REQUEST_FIELDS)
